@@ -50,6 +50,12 @@ def log_runner(prop, tier):
     fl = lambda m: ['-DMINSEV=%s' % SEVN[m], '-DSFX=%d' % m, '-DMINIDX_=%d' % m, '-DUSED_MASK=0x%xULL' % used[m]]
     tus = [('harness/log/h_log.cpp', fl(m) + ['-DNO_GLOBAL_DEFS']) for m in range(1, 6)]
     obl = [('statement type is null_stream exactly below the minimum %s' % SEVN[m], 'harness/log/h_log.cpp', fl(m)) for m in range(6)]
+    if prop == 'C10':
+        # include order: a nitro log header included BEFORE the macro is defined must not fix the compile-time minimum
+        for first in ('severity.hpp', 'attribute/severity.hpp', 'filter/severity_filter.hpp', 'record.hpp'):
+            for m in (3, 5):
+                obl.append(('minimum %s defined after including nitro/log/%s: statement types still follow the macro' % (SEVN[m], first), 'harness/log/h_order.cpp',
+                            ['-DMINSEV=%s' % SEVN[m], '-DFIRST_HEADER=<nitro/log/%s>' % first], 'static assertion failed'))
     u = Unit('logging', 'harness/log/h_log.cpp', 'harness/log/cb_log.c', caps={'str': 12, 'vec': 2, 'ss': 12}, cxx_defs=fl(0), extra_tus=tus, inc=['harness/log'],
              obligations=obl, queries=qs, corpus=corpus)
     return Runner(prop, tier, [u],
